@@ -408,10 +408,46 @@ func runC19(tier string) int {
 			}
 		}
 	})
+	// ... and over the data families (files without raw blocks; a const definition keeps its own line)
+	forEachDataFamilyFile(r, tier, func(fp *fileProgram) {
+		if strings.Contains(fp.Src, "`") {
+			return
+		}
+		o := fp.Opts
+		o.Optimize, o.LineMarkers, o.Path = true, false, ""
+		ref := comp.Compile(fp.Src, o)
+		if ref.Err != nil || ref.Panic != "" {
+			return
+		}
+		variants := []string{
+			strings.ReplaceAll(fp.Src, "\n", " # c\r\n"),
+			strings.ReplaceAll(strings.ReplaceAll(fp.Src, "\t", "  "), "\n", "\n\n// c\n"),
+		}
+		if one := oneLine(fp.Src); strings.Count(one, "const ") == strings.Count(fp.Src, "const ") && !strings.Contains(one[strings.LastIndex(one, "\n")+1:], "const ") {
+			constInBody := false
+			for _, l := range strings.Split(strings.TrimRight(one, "\n"), "\n") {
+				if !strings.HasPrefix(l, "const ") && strings.Contains(l, " const ") {
+					constInBody = true
+				}
+			}
+			if !constInBody {
+				variants = append(variants, one)
+			}
+		}
+		for vi, v := range variants {
+			res := comp.Compile(v, o)
+			r.Add("evaluations", 1)
+			r.Add("data_family_layout_variants", 1)
+			r.Add("nontrivial", 1)
+			if res.Err != nil || res.Panic != "" || res.Out != ref.Out {
+				r.Report(harness.Violation{Sig: fmt.Sprintf("C19:data-family-output-changed:variant%d", vi), Summary: fmt.Sprintf("%s: layout variant %d altered the compiled output (%v %s): %s\n  source: %q", fp.Desc, vi, res.Err, firstLine(res.Panic), firstDiff(res.Out, ref.Out), clip(v, 500)), Replay: map[string]interface{}{"source": v, "reference_source": fp.Src}})
+			}
+		}
+	})
 	r.Set("separators", c19Seps)
 	r.Assume("a token's lexeme is its literal, except STRING (from the opening quote to the closing quote of its last part) and RAWSTRING (backtick to backtick)",
 		"gaps are taken between tokens as the lexer itself reports them; a string-type prefix and the quote after it are one lexical unit; the white space and comments between the parts of a multi-part string are inside one token",
 		"inputs on which the lexer panics are counted and left to C18")
 	return r.Finish(r.Get("evaluations"), r.Get("nontrivial"),
-		"(a) every string of <= N characters over 20 characters (letters incl. multi-byte, a multi-byte non-letter, ASCII and non-ASCII digits, x, -, quote, backtick, space, tab, LF, CR, #, /, =, !, (, :); (b) every sequence of <= M lexemes from a 65-lexeme alphabet (all keywords, identifiers, numbers incl. hex/negative/leading zero, strings, typed string, raw string, every operator and delimiter, illegal characters) in 5 layouts; each input: position oracle on every token, then every gap replaced by each of 11 separators (spaces, tab, LF, CRLF, blank line, # and // comments, runs of several comment lines with indentation) and re-lexed; (c) C16's corpus programs compiled under every single-gap layout change; (d) tokens after K lines / K one-byte / K two-byte characters for every K <= 300 (thorough 5000) and around every power of two up to 2^17 (thorough 2^21); (e) every program of the control-flow families (C01 / C03 / C04 bounds) rewritten on one line, one token group per line, with a comment and CRLF at each line end, and with blank and comment lines between all lines, compiled and compared; non-trivial = >= 2 tokens and a line break or multi-byte character")
+		"(a) every string of <= N characters over 20 characters (letters incl. multi-byte, a multi-byte non-letter, ASCII and non-ASCII digits, x, -, quote, backtick, space, tab, LF, CR, #, /, =, !, (, :); (b) every sequence of <= M lexemes from a 65-lexeme alphabet (all keywords, identifiers, numbers incl. hex/negative/leading zero, strings, typed string, raw string, every operator and delimiter, illegal characters) in 5 layouts; each input: position oracle on every token, then every gap replaced by each of 11 separators (spaces, tab, LF, CRLF, blank line, # and // comments, runs of several comment lines with indentation) and re-lexed; (c) C16's corpus programs compiled under every single-gap layout change; (d) tokens after K lines / K one-byte / K two-byte characters for every K <= 300 (thorough 5000) and around every power of two up to 2^17 (thorough 2^21); (e) every program of the control-flow families (C01 / C03 / C04 bounds) rewritten on one line, one token group per line, with a comment and CRLF at each line end, and with blank and comment lines between all lines, compiled and compared, and the same for the data families (C06 hoisting files, C08 mapscripts statements, file-level programs, reduced bounds); non-trivial = >= 2 tokens and a line break or multi-byte character")
 }
